@@ -11,7 +11,11 @@ MANIFEST = dict(
          "split); FastCGI/SCGI/uwsgi/envp: decode(encode(env, body, any arrival schedule)) = (env, body), "
          "terminated once, announced length = queued length, and for lighttpd's own variable list the "
          "decoded CONTENT_LENGTH equals the decoded body's length (c09_fcgi/scgi/uwsgi_roundtrip, _e2e, "
-         "c09_cgi_envp_roundtrip); a body that ends early never yields a complete FastCGI request, an "
+         "c09_cgi_envp_roundtrip); scgi_create_env as written (10 reserved blanks, length rendered afterwards and "
+         "copied right-aligned into them / uwsgi header stored in place, unused blanks hidden by the chunk offset, "
+         "bytes_in/bytes_out corrected) yields for every variable list below 10^9 bytes exactly the front-to-back "
+         "encoding, announced length and counters (c09_scgi_buffer, c09_uwsgi_buffer; that the block stays below "
+         "10^9 bytes is a hypothesis, not derived from the header limit); a body that ends early never yields a complete FastCGI request, an "
          "authorizer gets no body (c09_fcgi_truncated_never_complete, c09_fcgi_authorizer); proxy: "
          "Transfer-Encoding only as lighttpd's own single 'chunked', never together with Content-Length, only "
          "in HTTP/1.1 with Host, no Proxy/Proxy-Connection, exactly one lighttpd-written Connection: close…, "
@@ -33,7 +37,9 @@ MANIFEST = dict(
          "arrival schedules, exact byte comparison; (3) the real gw_handle_subrequest / gw_write_request / "
          "gw_write_refill_wb / h1_reqbody_read in-process on client bytes in Content-Length or chunked "
          "framing, stream-request-body 0/1/2, temp files on/off, scripted read/write timing and backend "
-         "socket, compared after decoding; (4) the real h2_parse_frames / h2_recv_data / h2_recv_end_data / "
+         "socket, compared after decoding; (6) scgi_create_env observed before any write: first chunk offset, "
+         "hidden buffer prefix, wb_reqlen, wb.bytes_in/bytes_out against the buffer-level model, incl. an exhaustive "
+         "sweep of block sizes over the netstring-length digit boundaries; (4) the real h2_parse_frames / h2_recv_data / h2_recv_end_data / "
          "h2_recv_reqbody on DATA frame bytes (padding, segmentation, Content-Length, max-request-size, "
          "consuming or buffering backend side); (5) request-target split through the real parser. NOT "
          "executed: backend connect(), response reading, process management (fork/exec of CGI: "
@@ -650,6 +656,8 @@ def oracle_full(line, out):
     parsed, res = parse_obs(out)
     if parsed is None:
         return None
+    if c.op in BUF_OPS:
+        return buf_oracle(c, res)
     if c.op in ("fcgi", "scgi", "uwsgi", "cgibody") and " len=-1 " in parsed and not c.sched[0].startswith("c"):
         # CGI-style gateways need CONTENT_LENGTH: gw_handle_subrequest() collects a chunked body first
         # (sched "c<n>") or answers 411 when streaming; create_env with an open length is not a server state
@@ -711,6 +719,66 @@ def oracle_full(line, out):
                 return check_proxy(c, sh, http_decode(stream))
     except Bad as e:
         return "%s: malformed backend message || %s" % (c.op, e)
+    return None
+
+
+BUF_OPS = ("scgibuf", "uwsgibuf")
+
+
+def buf_fields(res):
+    if not res.startswith("buf off="):
+        return None
+    try:
+        return dict(x.split("=", 1) for x in res.split(" ")[1:])
+    except ValueError:
+        return None
+
+
+def buf_oracle(c, res):
+    """scgi_create_env() right after it returned: what the backend will read is a complete SCGI netstring /
+    uwsgi packet followed by nothing but the body bytes queued so far; none of the reserved blanks is visible;
+    the queue counters and the announced total describe exactly the visible bytes (stated on the
+    implementation's own observation, decoded by the independent decoders)"""
+    if "ERROR" in res or res.startswith("buf no-mem-chunk"):
+        return "buf: unexpected observation: " + res[:60]
+    o = buf_fields(res)
+    if o is None:
+        return None          # not routed to the backend / refused (nomatch, st=405, uwsgi st=400 / 431): nothing queued
+    try:
+        off, rl, bi, bo = int(o["off"]), int(o["reqlen"]), int(o["in"]), int(o["bo"])
+        hid = b"" if o["hid"] == "-" else C.unhx(o["hid"])
+        vis = b"" if o["out"] == "-" else C.unhx(o["out"])
+    except (KeyError, ValueError):
+        return "buf: unexpected observation: " + res[:60]
+    try:
+        d = scgi_decode(vis) if c.op == "scgibuf" else uwsgi_decode(vis)
+    except Bad as e:
+        return "buf: queued bytes are not a well-formed message: %s" % e
+    hdr_len = len(vis) - len(d["body"])
+    if c.op == "scgibuf":
+        digits = len(re.match(rb"[0-9]+", vis).group(0))
+        if off + digits + 1 != 10:
+            return "buf: chunk offset %d + %d length digits + ':' is not the 10 reserved bytes" % (off, digits)
+    elif off != 6:
+        return "buf: uwsgi chunk offset %d (4-byte header in 10 reserved bytes)" % off
+    if len(hid) != off or hid.strip(b" "):
+        return "buf: bytes in front of the chunk offset are not the unused blanks"
+    if bo != 0:
+        return "buf: wb.bytes_out = %d after create_env (nothing was written)" % bo
+    if bi != len(vis):
+        return "buf: wb.bytes_in = %d but %d bytes are readable from the queue" % (bi, len(vis))
+    env = dict(d["env"])
+    try:
+        cl = int(env.get(b"CONTENT_LENGTH", b""))
+    except ValueError:
+        return "buf: CONTENT_LENGTH missing or not a number"
+    first = c.sched[0] if c.sched else "0"
+    n0 = int(first[1:] if first.startswith("c") else first)
+    want_body = c.body()[:n0] if cl != 0 else b""
+    if d["body"] != want_body:
+        return "buf: bytes behind the header block are not the body bytes queued so far"
+    if rl != hdr_len + cl:
+        return "buf: wb_reqlen %d != header block %d + CONTENT_LENGTH %d" % (rl, hdr_len, cl)
     return None
 
 
@@ -958,6 +1026,14 @@ def classify(line, out):
     parsed, res = parse_obs(out)
     if parsed is None:
         return "%s:rejected:%s" % (t[0], res[:8])
+    if t[0] in BUF_OPS:
+        o = buf_fields(res)
+        if o is None:
+            return "%s:%s" % (t[0], res[:8])
+        fl = int(t[2])
+        n = 0 if o["out"] == "-" else len(o["out"]) // 2
+        return "%s:off%s:pend%d:body%d:tmp%d:h2%d:len%s" % (t[0], o["off"], o["pend"] != "0", int(o["in"]) != int(o["reqlen"]),
+                                                     bool(fl & F_TEMP), bool(fl & F_H2), size_class(n))
     fl = int(t[2])
     if t[0] in GW_OPS:
         m = re.match(r"g\w+ rc=(\d+) st=(\d+)(?: gs=(\d+) d=(-?\d+))?", res)
@@ -1245,6 +1321,60 @@ def gen_cases(ctx):
     return lines
 
 
+def buf_cases(ctx):
+    """scgi_create_env() at buffer level: the reserved 10 bytes, the right-aligned length / poked-in packet header,
+    the chunk offset and the queue counters.  Generated requests + an exhaustive sweep of the header-block size
+    over the 3->4 and 4->5 digit boundaries of the netstring length + the uwsgi 65535 limit"""
+    rng = ctx.rng
+    q = ctx.quick
+    lines = []
+
+    def one(op, head, n=None, chunked=False, fixed_cfg=False):
+        base = op[:-3]
+        cfg = gen_cfg(rng, base)
+        if fixed_cfg:
+            cfg["po"], cfg["ext"] = 0, b"/"
+            cfg["fl"] &= ~(F_H2EXT | F_AUTH | F_CHECKLOCAL)
+        if n is not None:
+            cfg["body"] = body_tok(rng, n)
+            cfg["sched"] = ("c%d" % n) if chunked else rand_sched(rng, n)
+            if rng.random() < 0.2:
+                cfg["fl"] |= F_TEMP
+        lines.append(mkline(op, head, **fix_cfg(cfg, base)))
+        ctx.dist["buf:%s:%s" % (op, "chunked-collected" if chunked else "no-body" if n is None else
+                                "body-" + size_class(n))] += 1
+
+    for i in range(4000 if q else 40000):
+        op = BUF_OPS[i % 2]
+        k = rng.random()
+        if k < 0.5:
+            n = rng.choice(SMALL_SIZES + [65536, 70000])
+            one(op, gen_head(rng, body_len=n if (n or rng.random() < 0.5) else None), n)
+        elif k < 0.7:
+            n = rng.choice(SMALL_SIZES)
+            one(op, gen_head(rng, chunked=True, v11=True), n, chunked=True)
+        else:
+            one(op, gen_head(rng))
+    # exhaustive small scope: every header-block size in two windows (netstring length 999|1000, 9999|10000)
+    sweep = list(range(0, 1100)) + list(range(8900, 9800))
+    for pad in sweep:
+        head = b"POST /app/x?q HTTP/1.1\r\nHost: h\r\nContent-Length: 3\r\nX-Pad: " + b"p" * pad + b"\r\n\r\n"
+        for op in BUF_OPS if pad < 1100 else ("scgibuf",):
+            cfg = dict(po=0, fl=0, ext=b"/", body="h616263", sched="3")
+            lines.append(mkline(op, head, **cfg))
+            ctx.dist["buf:%s:pad-sweep-%s" % (op, "0..1099" if pad < 1100 else "8900..9799")] += 1
+    # uwsgi block around 65535 (431), SCGI with 5 digits
+    for pad in list(range(64700, 65300, 23 if q else 3)):
+        head = b"POST /app/x?q HTTP/1.1\r\nHost: h\r\nContent-Length: 3\r\nX-Pad: " + b"p" * pad + b"\r\n\r\n"
+        if len(head) > 65535:
+            continue
+        for op in BUF_OPS:
+            cfg = dict(po=0, fl=0, ext=b"/", body="h616263", sched="3")
+            lines.append(mkline(op, head, **cfg))
+            ctx.dist["buf:%s:pad-64700..65300" % op] += 1
+    return lines
+
+
 def gw_cases(ctx):
     """requests run by the real gw_handle_subrequest(): client framing x streaming mode x read/write timing"""
     rng = ctx.rng
@@ -1393,6 +1523,8 @@ def run(ctx):
     big = [l for l in lines if not (len(l) < 20000 and " r" not in l)]
     ctx.differential("backend-request(env/cgi/fcgi/scgi/uwsgi/proxy)", [exe], "cgi", small, oracle, classify)
     ctx.differential("backend-request(large PARAMS / large bodies)", [exe], "cgi", big, oracle, classify)
+    ctx.differential("scgi_create_env at buffer level (reserved bytes, in-place header, chunk offset, counters)", [exe],
+                     "cgi", add_parsed(exe, buf_cases(ctx)), oracle, classify)
     glines = add_parsed(exe, gw_cases(ctx))
     ctx.differential("gw_handle_subrequest (client framing, streaming modes, read/write timing)", [exe], "cgi",
                      glines, oracle, classify, canon=canon)
